@@ -96,6 +96,8 @@ func c12Cfgs() []c12Cfg {
 		{"FS/byname-cold", func(s *world.Schema) world.Config { return world.Config{Strat: world.FS, Bind: world.BindByName, Schema: s} }, 0, nil},
 		{"FS/go-directive", func(s *world.Schema) world.Config { return world.Config{Strat: world.FS, Bind: world.BindGoDir, Schema: s} }, 2, nil},
 		{"FS/registered", func(s *world.Schema) world.Config { return world.Config{Strat: world.FS, Bind: world.BindRegister, Schema: s} }, 0, nil},
+		// B.name is served by a registered METHOD, A.name by the struct field: two implementers of Named bound differently
+		{"FS/registered-fields", func(s *world.Schema) world.Config { return world.Config{Strat: world.FS, Bind: world.BindRegisterFields, Schema: s} }, 0, nil},
 		{"RS", func(s *world.Schema) world.Config { return world.Config{Strat: world.RS, Schema: s} }, 0, nil},
 		{"AS", func(s *world.Schema) world.Config { return world.Config{Strat: world.AS, Schema: s} }, 0, nil},
 		{"RS/root-type-added-by-AddTypes", func(s *world.Schema) world.Config { return world.Config{Strat: world.RS, Schema: s} }, 0, c12AddSubscription},
@@ -110,6 +112,26 @@ func runC12(c *core.Ctx) {
 	}
 	menu := c12Menu()
 	g0 := world.BaseGraph(0)
+	// one implementer of Named at a time, the field selected on the interface itself: a path from the root to a "named" value
+	// of type A, and one to a value of type B (whatever the base graph offers)
+	for _, want := range []string{"A", "B"} {
+	search:
+		for _, f1 := range []string{"a", "b", "c"} {
+			n1, _ := g0.Root.F[f1].(*world.Node)
+			if n1 == nil {
+				continue
+			}
+			for _, f2 := range []string{"named", "mnamed", "buddy"} {
+				if f2 == "buddy" && n1.Type != "C" {
+					continue
+				}
+				if n2, _ := n1.F[f2].(*world.Node); n2 != nil && n2.Type == want {
+					menu = append(menu, c12Req{Name: "interface-field-on-" + want, Text: "{" + f1 + "{" + f2 + "{nick name}}}"})
+					break search
+				}
+			}
+		}
+	}
 	type scenario struct {
 		cfg  c12Cfg
 		reqs []c12Req
